@@ -60,6 +60,8 @@ def run_check(tier, seed):
     extra += S.gen_badname_cases(rng, 0, transports=('fusedev', 'virtio', 'chan'))
     for i, c in enumerate(extra): c['id'] = n + i
     cases += extra
+    for i, c in enumerate(cases):
+        if i % 4 == 3: c['hook'] = True     # every fourth case runs with a MetricsHook installed
     rc, obs, raw = S.run_impl(cases, bindir=bindir)
     missing = [c for c in cases if c['id'] not in obs]
     if rc != 0 or missing:
@@ -120,7 +122,7 @@ def run_check(tier, seed):
     ev.cov['model_vs_impl_disagreements'] = len(bad_idx)
     ev.cov['rule'] = ('seeded generator: ~55% well-formed requests of every opcode laid out from the kernel header tables (pairwise distinct field values, boundary values), '
                       '~45% malformed (truncation at any offset, trailing bytes, length-field lies, opcode holes, count/size extremes, NULs removed, random bytes) x {fusedev, the real FuseChannel::get_request path with its shared read/write buffer, virtio with random '
-                      'descriptor segmentations} x reply capacities {0,15,16,17,...,128KiB} x remap {ok, shifted, fail}; distinct_nontrivial counts distinct '
+                      'descriptor segmentations} x reply capacities {0,15,16,17,...,128KiB} x remap {ok, shifted, fail}; deterministic blocks: oversize FORGET/BATCH_FORGET and tiny/exact-fit capacities, the configuration block (prior INIT minor x LOOKUP answers, id remap x requests, cache-request handler x mapping requests, INIT after an old minor), 13 name-taking opcodes x 7 malformed string tails; every fourth case runs with a counting MetricsHook installed (behaviour must not change); distinct_nontrivial counts distinct '
                       '(opcode, transport, result class, #packets, well-formed?) tuples observed')
     ev.cov['input_distribution'] = {' / '.join(k): v for k, v in sorted(hist.items(), key=lambda kv: -kv[1])[:40]}
     ev.cov['samples'] = [S.case_json(c, obs.get(c['id'])) for c in cases[:2] + cases[-2:]]
